@@ -27,7 +27,7 @@ use std::time::{Duration, Instant};
 
 const WATCHDOG: Duration = Duration::from_secs(15);
 const QUIET: Duration = Duration::from_millis(250);
-const EP_NAMES: [&str; 6] = ["blocking_client", "async_client", "ws_client", "blocking_server", "async_server", "ws_server"];
+const EP_NAMES: [&str; 7] = ["blocking_client", "async_client", "ws_client", "blocking_server", "async_server", "ws_server", "ws_proxy"];
 /// digest (and byte-level model run) only for streams up to this many bytes
 const DIGEST_CAP: usize = 4 << 20;
 
@@ -160,8 +160,8 @@ fn expected_frames(ep: usize, ws: &[Wr]) -> Vec<Exp> {
             (0..=2, 'J') | (0..=2, 'Y') | (0..=2, 'b') => Some(("/t/", 0, None, 2)),
             (1, 'f') => Some(("/t/", 1, Some(5000 + tag as u64), 0)),
             (1, 'F') => Some(("/t/", 0, Some(5000 + tag as u64), 0)),
-            (3..=5, 'r') => Some(("/g/", 0, Some(1000 + tag as u64), 0)),
-            (5, 'p') => Some(("/p/", 1, Some(0), 0)),
+            (3..=6, 'r') => Some(("/g/", 0, Some(1000 + tag as u64), 0)),
+            (5, 'p') | (5, 'B') => Some(("/p/", 1, Some(0), 0)),
             _ => None, // 'q': a notify request, no response may appear
         };
         if let Some((pre, notify, id, bfmt)) = e {
@@ -629,7 +629,7 @@ impl Script {
             ws.push(Wr { kind, size, qlen: ql });
         }
         let ep: usize = w[2].parse().ok()?;
-        if ep > 5 || ws.len() > 64 {
+        if ep > 6 || ws.len() > 64 {
             return None;
         }
         Some(Script { idx: w[1].to_string(), ep, buf: w[4].parse().ok()?, rt: w[6].parse().ok()?, chunk: w[8].parse().ok()?, stall_at: w[10].parse().ok()?, stall_ms: w[11].parse().ok()?, fault, ws })
@@ -1061,20 +1061,27 @@ fn run_ws_server(sc: &Script) -> Result<Capture, String> {
     if !wait_until(|| reg.len() == 1, WATCHDOG) {
         notes.push("no-peer");
     }
-    let pushers: Vec<usize> = (0..sc.ws.len()).filter(|i| sc.ws[*i].kind == 'p').collect();
+    let pushers: Vec<usize> = (0..sc.ws.len()).filter(|i| sc.ws[*i].kind == 'p' || sc.ws[*i].kind == 'B').collect();
     let done = Arc::new(AtomicUsize::new(0));
     let stop = Arc::new(AtomicBool::new(false));
     let barrier = Arc::new(Barrier::new(pushers.len() + 1));
     for &tag in &pushers {
         let (reg, size, done, stop, barrier) = (reg.clone(), sc.ws[tag].size, done.clone(), stop.clone(), barrier.clone());
         let method = String::from_utf8(query_of("/p/", tag, sc.ws[tag].qlen)).unwrap();
+        let broadcast = sc.ws[tag].kind == 'B';
         std::thread::spawn(move || {
             let peer = reg.peers().into_iter().next();
             barrier.wait();
             if let Some(peer) = peer {
                 let t0 = Instant::now();
                 loop {
-                    match peer.send_notify(&method, NotifyBody::Raw(pat(tag as u64, size), BodyFormat::RawBinary)) {
+                    // 'B': through `PeerRegistry::broadcast_notify_raw` (every registered peer = this connection)
+                    let r = if broadcast {
+                        reg.broadcast_notify_raw(&method, BodyFormat::RawBinary, &pat(tag as u64, size)).remove(&peer.peer_id()).unwrap_or(Err(PeerSendError::Disconnected))
+                    } else {
+                        peer.send_notify(&method, NotifyBody::Raw(pat(tag as u64, size), BodyFormat::RawBinary))
+                    };
+                    match r {
                         Ok(()) | Err(PeerSendError::Disconnected) => break,
                         Err(_) => {
                             // channel full: the embedder retries
@@ -1125,6 +1132,58 @@ fn run_ws_server(sc: &Script) -> Result<Capture, String> {
 // ---------------------------------------------------------------------------------------------
 // one case
 // ---------------------------------------------------------------------------------------------
+/// endpoint 6: `proxy_connection` — a WebSocket connection whose requests are relayed to an upstream
+/// `AsyncServer` through an `AsyncClient`; the responses come back through the proxy's own writer.
+fn run_ws_proxy(sc: &Script) -> Result<Capture, String> {
+    let mut notes = Vec::new();
+    let rt = runtime(sc.rt);
+    // upstream server
+    let (ul, uaddr) = listener(0, 0);
+    ul.set_nonblocking(true).map_err(|e| e.to_string())?;
+    let upstream = AsyncServer::new(gen_router(Some(sc)));
+    rt.spawn(async move {
+        if let Ok(l) = tokio::net::TcpListener::from_std(ul) {
+            let _ = upstream.serve(l).await;
+        }
+    });
+    // the proxy: accept one TCP connection, upgrade it, relay
+    let (pl, paddr) = listener(0, sc.buf);
+    pl.set_nonblocking(true).map_err(|e| e.to_string())?;
+    let limits = WebSocketLimits::default().with_assumed_peer_frame_limit(Some(64 << 20));
+    rt.spawn(async move {
+        let Ok(l) = tokio::net::TcpListener::from_std(pl) else { return };
+        let Ok((stream, _)) = l.accept().await else { return };
+        let cfg: repe::tokio_tungstenite::tungstenite::protocol::WebSocketConfig = limits.into();
+        let Ok(ws) = repe::tokio_tungstenite::accept_async_with_config(stream, Some(cfg)).await else { return };
+        let Ok(client) = AsyncClient::connect(uaddr).await else { return };
+        let _ = repe::websocket_server::proxy_connection_with_limits(ws, client, limits).await;
+    });
+    let mut sock = connect_small(paddr, sc.buf).map_err(|e| format!("connect: {e}"))?;
+    ws_handshake_as_client(&mut sock, "/").map_err(|e| format!("handshake: {e}"))?;
+    let g = Gate::new(sc.stall_at);
+    let rd = reader_thread(sock.try_clone().unwrap(), g.clone(), sc.chunk);
+    let reqs: Vec<u8> = requests(sc).iter().map(|f| ws_frame(2, f, true)).collect::<Vec<_>>().concat();
+    let sent = send_requests(sock.try_clone().unwrap(), reqs, false);
+    wait_until(|| g.at_stall(sc.stall_at), WATCHDOG);
+    std::thread::sleep(Duration::from_millis(sc.stall_ms));
+    g.open();
+    if !wait_until(|| sent.load(SeqCst) || g.eof.load(SeqCst), WATCHDOG) {
+        notes.push("request-watchdog");
+    }
+    // the relay is sequential (one request, one response): wait until the responses stop coming
+    wait_quiet(&g);
+    let _ = sock.write_all(&ws_frame(8, &1000u16.to_be_bytes(), true));
+    let _ = sock.shutdown(Shutdown::Write);
+    if !wait_until(|| g.eof.load(SeqCst), WATCHDOG) {
+        notes.push("eof-watchdog");
+    }
+    g.stop.store(true, SeqCst);
+    let raw = rd.join().map_err(|_| "reader panicked".to_string())?;
+    rt.shutdown_background();
+    let c = ws_deframe(&raw);
+    Ok(Capture { rep: c.rep.clone(), ws: Some(c), notes })
+}
+
 fn fault_name(f: &Fault) -> &'static str {
     match f {
         Fault::None => "none",
@@ -1153,7 +1212,8 @@ fn exec(out: &mut Out, line: &str) -> (String, String, bool) {
         0 => run_blocking_client(&sc),
         1 | 2 => run_async_client(&sc),
         3 | 4 => run_tcp_server(&sc),
-        _ => run_ws_server(&sc),
+        5 => run_ws_server(&sc),
+        _ => run_ws_proxy(&sc),
     };
     let cap = match cap {
         Ok(c) => c,
@@ -1230,8 +1290,8 @@ fn pick_size(r: &mut Rng, max: usize) -> usize {
 fn kinds_for(ep: usize, r: &mut Rng) -> char {
     match ep {
         0..=2 => if r.chance(1, 4) { 'c' } else { 'n' },
-        3 | 4 => if r.chance(1, 8) { 'q' } else { 'r' },
-        _ => match r.below(8) { 0 => 'q', 1..=3 => 'p', _ => 'r' },
+        3 | 4 | 6 => if r.chance(1, 8) { 'q' } else { 'r' },
+        _ => match r.below(8) { 0 => 'q', 1 | 2 => 'p', 3 => 'B', _ => 'r' },
     }
 }
 
@@ -1239,6 +1299,7 @@ fn fault_for(ep: usize, r: &mut Rng) -> Fault {
     match ep {
         0 | 3 | 4 => Fault::WTimeout(*r.pick(&[30u64, 60, 100])),
         1 | 2 => Fault::Cancel(-1),
+        6 => Fault::None,
         _ => Fault::Drain(*r.pick(&[30u64, 80])),
     }
 }
@@ -1269,7 +1330,7 @@ fn gen_scripts(r: &mut Rng, thorough: bool) -> Vec<Script> {
         }
         v.push(s);
     };
-    for ep in 0..6usize {
+    for ep in 0..7usize {
         let big = 1usize << 20;
         // 1. many writers, small and medium frames, peer stalls from the first byte, tiny reads
         let ws: Vec<Wr> = (0..32).map(|_| Wr { kind: kinds_for(ep, r), size: pick_size(r, 70000), qlen: 0 }).collect();
